@@ -195,6 +195,8 @@ def main():
     both = sorted(set(pairs) | {(b, a) for a, b in pairs})
     texts += F.f_rule_pairs(both, consts=[0, 1, F.MASK], contexts=("stack",))[:: (3 if tier == "quick" else 1)]
     texts += F.f_exh(2 if tier == "quick" else 3)
+    texts += F.f_rule_siblings(ops, consts=(0, 1))[:: (2 if tier == "quick" else 1)]
+    texts += F.deep_stack_blocks()
     texts += F.f_mem((2,), deltas=[0, 32])[::4]
     texts = list(dict.fromkeys(texts))
     osets = [gasol.optset("none", "gas", True, True, "greedy"), gasol.optset("none", "size", True, False, "greedy"),
